@@ -102,6 +102,7 @@ type interpreter struct {
 	stubs     map[string]bool
 	bounds    map[string]bool
 	chanSeq   int
+	uf        map[int]int
 	timeAdvances int
 	livelock  bool
 	panicStack []string
@@ -474,7 +475,14 @@ func (i *interpreter) assumeInternal(t *smt.Term) {
 	h := i.ctx.Hash(t)
 	i.pcHash[0] += h[0]
 	i.pcHash[1] += h[1]
-	i.solver.Assert(t)
+	// constraint independence: union the variables of t
+	vs := i.ctx.VarsOf(t)
+	if i.uf == nil {
+		i.uf = map[int]int{}
+	}
+	for k := 1; k < len(vs); k++ {
+		i.union(vs[0], vs[k])
+	}
 }
 
 func (i *interpreter) replaying() bool { return len(i.trace) < len(i.prefix) }
@@ -542,22 +550,54 @@ func (i *interpreter) branch(cond *smt.Term, fr *frame) bool {
 // feasible is a pruning query: Unsat prunes, Sat/Unknown keep. A query that runs
 // past the feasibility limit kills the solver process, which is then restarted
 // and re-fed the path condition.
-func (i *interpreter) feasible(t *smt.Term) smt.Result {
-	key := i.cacheKey(t)
-	if r, ok := i.ex.qcache.Load(key); ok {
-		i.ex.cacheHits.Add(1)
-		return r.(smt.Result)
+func (i *interpreter) find(v int) int {
+	for {
+		p, ok := i.uf[v]
+		if !ok || p == v {
+			return v
+		}
+		if gp, ok := i.uf[p]; ok && gp != p {
+			i.uf[v] = gp
+		}
+		v = p
 	}
-	r := i.feasibleUncached(t)
-	if r != smt.Unknown {
-		i.ex.qcache.Store(key, r)
-	}
-	return r
 }
 
-// cacheKey identifies the query "path condition ∧ extra..." structurally.
-func (i *interpreter) cacheKey(extra ...*smt.Term) [4]uint64 {
-	k := [4]uint64{i.pcHash[0], i.pcHash[1], 0, 0}
+func (i *interpreter) union(a, b int) {
+	ra, rb := i.find(a), i.find(b)
+	if ra != rb {
+		i.uf[ra] = rb
+	}
+}
+
+// slice returns the path-condition constraints that share variables (transitively) with the query terms:
+// the only ones that can influence its satisfiability, given that the rest of the path condition is
+// satisfiable on its own (constraint independence, as in KLEE).
+func (i *interpreter) pcSlice(q ...*smt.Term) []*smt.Term {
+	roots := map[int]bool{}
+	for _, t := range q {
+		for _, v := range i.ctx.VarsOf(t) {
+			roots[i.find(v)] = true
+		}
+	}
+	var out []*smt.Term
+	for _, p := range i.pc {
+		vs := i.ctx.VarsOf(p)
+		if len(vs) > 0 && roots[i.find(vs[0])] {
+			out = append(out, p)
+		}
+	}
+	return out
+}
+
+// sliceKey identifies a sliced query structurally (order-insensitive over the slice).
+func (i *interpreter) sliceKey(sl []*smt.Term, extra ...*smt.Term) [4]uint64 {
+	var k [4]uint64
+	for _, p := range sl {
+		h := i.ctx.Hash(p)
+		k[0] += h[0]
+		k[1] += h[1]
+	}
 	for n, e := range extra {
 		h := i.ctx.Hash(e)
 		k[2] += h[0] * uint64(2*n+3)
@@ -566,16 +606,25 @@ func (i *interpreter) cacheKey(extra ...*smt.Term) [4]uint64 {
 	return k
 }
 
-func (i *interpreter) feasibleUncached(t *smt.Term) smt.Result {
-	r, killed := i.solver.CheckTimeout(i.ex.feasLimit, t)
+// feasible is a pruning query: Unsat prunes, Sat/Unknown keep. It is decided on the independent slice of
+// the path condition and cached structurally across paths. A query that runs past the feasibility limit
+// kills the solver process (restarted on the next query).
+func (i *interpreter) feasible(t *smt.Term) smt.Result {
+	sl := i.pcSlice(t)
+	key := i.sliceKey(sl, t)
+	if r, ok := i.ex.qcache.Load(key); ok {
+		i.ex.cacheHits.Add(1)
+		return r.(smt.Result)
+	}
+	q := append(append([]*smt.Term{}, sl...), t)
+	r, killed := i.solver.CheckTimeout(i.ex.feasLimit, q...)
 	if killed {
 		i.solver.Reset()
-		for _, p := range i.pc {
-			i.solver.Assert(p)
-		}
 	}
 	if r == smt.Unknown {
 		i.keptUnknown++
+	} else {
+		i.ex.qcache.Store(key, r)
 	}
 	return r
 }
@@ -596,7 +645,7 @@ func (i *interpreter) concretize(t *smt.Term) uint64 {
 	var vals []uint64
 	var block []*smt.Term
 	for {
-		r, m := i.solver.CheckModel([]*smt.Term{t}, block...)
+		r, m := i.solver.CheckModel([]*smt.Term{t}, append(append([]*smt.Term{}, i.pcSlice(t)...), block...)...)
 		if r == smt.Unknown {
 			panic(i.solverFail("concretize"))
 		}
@@ -739,13 +788,14 @@ func (i *interpreter) replayVals(m map[string]uint64) []ReplayVal {
 // modelFor asks for a model of path ∧ extra, preferring one that also satisfies
 // the harness's soft constraints (rt.Prefer: small, natively replayable values).
 func (i *interpreter) modelFor(vars []*smt.Term, extra ...*smt.Term) (smt.Result, map[string]uint64) {
+	full := append(append([]*smt.Term{}, i.pc...), extra...)
 	if len(i.soft) > 0 {
-		all := append(append([]*smt.Term{}, extra...), i.soft...)
+		all := append(append([]*smt.Term{}, full...), i.soft...)
 		if r, m := i.solver.CheckModel(vars, all...); r == smt.Sat {
 			return r, m
 		}
 	}
-	return i.solver.CheckModel(vars, extra...)
+	return i.solver.CheckModel(vars, full...)
 }
 
 // userAssert implements rt.Assert.
@@ -772,17 +822,22 @@ func (i *interpreter) userAssert(cond value, id string) {
 	neg := i.ctx.Not(t)
 	K := i.knownDisj()
 	vars := i.inputVars()
-	// ordinary violation: path ∧ ¬c ∧ ¬K
-	akey := i.cacheKey(neg, i.ctx.Not(K))
+	// ordinary violation: path ∧ ¬c ∧ ¬K — decided on the independent slice (cached across paths);
+	// the full path condition is only sent when a model of a violation is needed
+	notK := i.ctx.Not(K)
+	sl := i.pcSlice(neg, notK)
+	akey := i.sliceKey(sl, neg, notK)
 	var r smt.Result
 	var m map[string]uint64
 	if c, ok := i.ex.qcache.Load(akey); ok && c.(smt.Result) == smt.Unsat {
 		i.ex.cacheHits.Add(1)
 		r = smt.Unsat
 	} else {
-		r, m = i.modelFor(vars, neg, i.ctx.Not(K))
+		r = i.solver.Check(append(append([]*smt.Term{}, sl...), neg, notK)...)
 		if r == smt.Unsat {
 			i.ex.qcache.Store(akey, r)
+		} else if r == smt.Sat {
+			r, m = i.modelFor(vars, neg, notK)
 		}
 	}
 	if r == smt.Unknown {
@@ -871,10 +926,13 @@ func (i *interpreter) addViolation(kind, id, site string, m map[string]uint64, k
 // values of its Observe terms under that witness.
 func (i *interpreter) sample(outcome string) *PathSample {
 	vars := i.inputVars()
-	all := append([]*smt.Term{}, i.soft...)
+	all := append(append([]*smt.Term{}, i.pc...), i.soft...)
 	r, m, killed := i.solver.CheckModelTimeout(i.ex.feasLimit, vars, all...)
 	if r != smt.Sat && !killed && len(i.soft) > 0 {
-		r, m, killed = i.solver.CheckModelTimeout(i.ex.feasLimit, vars)
+		r, m, killed = i.solver.CheckModelTimeout(i.ex.feasLimit, vars, i.pc...)
+	}
+	if killed {
+		i.solver.Reset()
 	}
 	if r != smt.Sat {
 		return nil
